@@ -188,6 +188,9 @@ WORKER = RealWorker()
 
 
 def run(chk: Check, drv: Driver):
+    from .. import graphcorr
+
+    graphcorr.lattice_order_check(chk, 150 if chk.tier == "quick" else 2000, drv)
     front_half(chk, drv)
     chk.cov["rule"] = (
         "curated + seeded random assignments (<=4 leaves, + - *, parentheses, literals, scalars, repeated tensors) x "
